@@ -131,7 +131,7 @@ def record(ck, n_grid, n_float):
     jobs.append({"kind": "grid", "shape": list(sh), "T": T, "seed": int(rs.randint(1 << 30)),
                  "lr": 0.125, "beta1": float([0.0, 0.5, 0.9][rs.randint(3)]),
                  "wd": float([0.0, 0.125][rs.randint(2)]), "normalize": False, "eps": EPS,
-                 "bn": bn, "bd": bd, "lo": -3, "hi": 3})
+                 "bn": bn, "bd": bd, "lo": -3, "hi": 3, "eager": i % 4 == 3})
   for i in range(n_float):
     sh = shapes[rs.randint(len(shapes))]
     jobs.append({"kind": "float", "shape": list(sh), "T": int(rs.randint(3, 13)),
@@ -141,7 +141,7 @@ def record(ck, n_grid, n_float):
                  "normalize": bool(rs.randint(3) == 0),
                  "eps": float([1e-10, 1e-6][rs.randint(2)]),
                  "beta2": float([1.0, 0.999, 0.9, 0.5, 0.99][rs.randint(5)]),
-                 "scale": float(10.0 ** rs.randint(-4, 4))})
+                 "scale": float(10.0 ** rs.randint(-4, 4)), "eager": i % 4 == 1})
   # low-precision parameters, long histories: the second-moment recursion must not lose increments once
   # an accumulator is 2^8 (bfloat16) / 2^11 (float16) times larger than the incoming squared gradient
   for i in range(max(4, n_float // 15)):
